@@ -58,7 +58,7 @@ def run(res, tier, rng):
     hosts = [("com",), ("x", "com"), ("a", "x", "com"), ("b", "a", "x", "com"), ("co", "uk"), ("x", "co", "uk"), ("a", "x", "co", "uk"),
              ("y", "com"), ("X", "com"), ("blogspot", "com"), ("s", "blogspot", "com"), ("163", "com"), ("news", "163", "com"), ("1x", "co", "uk"),
              ("localhost",), ("api", "localhost"), ("b", "api", "localhost")]
-    seg_chains = [[], ["a"], ["a", "b"], ["a", "b", "c"], ["b"], ["a", "c"]]
+    seg_chains = [[], ["a"], ["a", "b"], ["a", "b", "c"], ["b"], ["a", "c"], ["a%2Fb"], ["a%2Fb", "c"], ["a%2fb"]]
     universe = []
     for scheme, port in (("http", ""), ("https", ""), ("http", "8080"), ("http", "80")):
         for h in hosts:
